@@ -675,7 +675,18 @@ func (ts *Service) handleListTasks(w http.ResponseWriter, r *http.Request) {
 	w.Write(httpd.MarshalJSON(response{tasks}, true))
 }
 
-var validTaskID = regexp.MustCompile(`^[-\._\p{L}0-9]+$`)
+var validTaskID = idMatcher{regexp.MustCompile(`^[-\._\p{L}0-9]+$`)}
+
+// idMatcher matches the IDs of tasks and templates.
+// The IDs . and .. match the expression but are path elements with a meaning of their own,
+// an object with such an ID cannot be addressed by its link.
+type idMatcher struct {
+	re *regexp.Regexp
+}
+
+func (m idMatcher) MatchString(id string) bool {
+	return id != "." && id != ".." && m.re.MatchString(id)
+}
 
 func (ts *Service) handleCreateTask(w http.ResponseWriter, r *http.Request) {
 	task := client.CreateTaskOptions{}
@@ -1654,7 +1665,7 @@ func (ts *Service) handleListTemplates(w http.ResponseWriter, r *http.Request) {
 	w.Write(httpd.MarshalJSON(response{templates}, true))
 }
 
-var validTemplateID = regexp.MustCompile(`^[-\._\p{L}0-9]+$`)
+var validTemplateID = idMatcher{regexp.MustCompile(`^[-\._\p{L}0-9]+$`)}
 
 func (ts *Service) handleCreateTemplate(w http.ResponseWriter, r *http.Request) {
 	template := client.CreateTemplateOptions{}
